@@ -4,6 +4,7 @@ CONSTANT MCObj = {}
 CONSTANT MCHnd = {"h1"}
 CONSTANT MCBlk = {1, 2, 3}
 CONSTANT MCTokenFirst = TRUE
+CONSTANT MCFailureTokens = TRUE
 CONSTANT MCReqs = {"okA", "hashA", "okB", "badchar", "star0", "methfail", "longphrase"}
 VIEW View
 INVARIANT TypeOK FailClosed NoStale TokenShape WipedIffValidated ResultIsFunction GrowErasedFirst
